@@ -1,1 +1,61 @@
-// placeholder
+//! C06 — writes reach the transport complete, contiguous and in order (blocking connection).
+use crate::common::*;
+use insim::identifiers::RequestId;
+use insim::insim::{Small, SmallType, Tiny, TinyType};
+use insim::net::blocking_impl::Framed;
+use insim::net::{Codec, Mode};
+use std::io::{Read, Write};
+
+static mut OUT: [u8; 32] = [0; 32];
+static mut OUTLEN: usize = 0;
+static mut CALLS: usize = 0;
+
+/// accepts a nondeterministic k in 1..=len bytes per call (a short write, as any stream socket may)
+#[derive(Debug)]
+struct Short;
+impl Read for Short {
+    fn read(&mut self, _b: &mut [u8]) -> std::io::Result<usize> { Ok(0) }
+}
+impl Write for Short {
+    fn write(&mut self, buf: &[u8]) -> std::io::Result<usize> {
+        if buf.is_empty() { return Ok(0); }
+        let k: usize = kani::any();
+        kani::assume(k >= 1 && k <= buf.len());
+        let mut i = 0;
+        unsafe {
+            CALLS += 1;
+            while i < k && OUTLEN < 32 { OUT[OUTLEN] = buf[i]; OUTLEN += 1; i += 1; }
+        }
+        Ok(k)
+    }
+    fn flush(&mut self) -> std::io::Result<()> { Ok(()) }
+}
+
+/// two packets (TINY then SMALL, symbolic contents), both modes, any acceptance pattern
+#[kani::proof]
+#[kani::unwind(14)]
+#[kani::stub(alloc::fmt::format, stub_format)]
+fn c06_blocking_short_writes() {
+    let compressed: bool = kani::any();
+    let mode = if compressed { Mode::Compressed } else { Mode::Uncompressed };
+    let mut f = Framed::new(Box::new(Short), Codec::new(mode));
+    let r1q: u8 = kani::any();
+    let r1 = f.write(Tiny { reqi: RequestId(r1q), subt: TinyType::Ping });
+    let ok1 = r1.is_ok();
+    std::mem::forget(r1);
+    let r2q: u8 = kani::any();
+    let on: bool = kani::any();
+    let r2 = f.write(Small { reqi: RequestId(r2q), subt: SmallType::Tms(on) });
+    let ok2 = r2.is_ok();
+    std::mem::forget(r2);
+    std::mem::forget(f);
+    assert!(ok1 && ok2, "C06:write succeeds on a transport that always makes progress");
+    unsafe {
+        assert!(OUTLEN == 12, "C06:both frames reach the transport completely");
+        assert!(OUT[0] == if compressed { 1 } else { 4 } && OUT[1] == 3 && OUT[2] == r1q && OUT[3] == 3, "C06:first frame intact and first");
+        assert!(OUT[4] == if compressed { 2 } else { 8 } && OUT[5] == 4 && OUT[6] == r2q && OUT[7] == 4, "C06:second frame header contiguous after the first");
+        assert!(OUT[8] == on as u8 && OUT[9] == 0 && OUT[10] == 0 && OUT[11] == 0, "C06:second frame body intact");
+        kani::cover!(CALLS == 12, "one byte accepted per call");
+        kani::cover!(CALLS == 2, "whole frames accepted");
+    }
+}
